@@ -49,13 +49,15 @@ static void measure(const PolarGrid& g, const char* op, const char* task, int id
 }
 
 template <class S>
-static void smoother_tasks(const char* op, S& s, const PolarGrid& g, Rng& rng) {
+static void smoother_tasks(const char* op, S& s, const PolarGrid& g, Rng& rng, bool give) {
     static const char* names[3] = {"x", "rhs", "temp"};
     const int nt = g.ntheta(), lr = g.lengthSmootherRadial();
     for (int col = 0; col < 2; col++) {
         SmootherColor c = col ? SmootherColor::White : SmootherColor::Black;
         // the region calls these with i_r in -1 .. nsc (the "outside" parts) : only valid indices reach the kernels
-        for (int i = 0; i < g.numberSmootherCircles(); i++)
+        // the give regions call the circle kernel with i_r = nsc as well (the first radial row feeds the outermost circle)
+        const int imax = give ? g.numberSmootherCircles() + 1 : g.numberSmootherCircles();
+        for (int i = 0; i < imax; i++)
             measure(g, op, "ascCircle", i, col ? "white" : "black", 3, names, [&](std::vector<Vec>& a) { FA::ac(s, i, c, a[0], a[1], a[2]); }, rng);
         for (int j = 0; j < nt; j++)
             measure(g, op, "ascRadial", j, col ? "white" : "black", 3, names, [&](std::vector<Vec>& a) { FA::ar(s, j, c, a[0], a[1], a[2]); }, rng);
@@ -66,7 +68,62 @@ static void smoother_tasks(const char* op, S& s, const PolarGrid& g, Rng& rng) {
         measure(g, op, "solveRadial", j, "-", 3, names, [&](std::vector<Vec>& a) { Vec s1(lr); FA::sr(s, j, a[0], a[2], s1); }, rng);
 }
 
+// stress replay: the whole parallel operator, many times, against the one-thread result of the same object class
+template <class MK>
+static void stress_one(const char* op, const PolarGrid& g, int threads, int reps, MK make_apply) {
+    const int n = g.numberOfNodes();
+    Rng r(99);
+    Vec x0(n), f(n);
+    for (int i = 0; i < n; i++) { x0[i] = r.real(-1, 1); f[i] = r.real(-1, 1); }
+    auto seq = make_apply(1); auto par = make_apply(threads);
+    Vec ref = x0; seq(ref, f);
+    int bad = 0, nonrepro = 0; double worst = 0; Vec first(n);
+    for (int k = 0; k < reps; k++) {
+        Vec x = x0; par(x, f);
+        double d = 0; for (int i = 0; i < n; i++) d = std::max(d, std::fabs(x[i] - ref[i]));
+        double sc = 0; for (int i = 0; i < n; i++) sc = std::max(sc, std::fabs(ref[i]));
+        if (d > 1e-9 * std::max(sc, 1.0)) { bad++; worst = std::max(worst, d); }
+        if (k == 0) first = x; else if (std::memcmp(&first[0], &x[0], n * sizeof(double)) != 0) nonrepro++;
+    }
+    std::printf("PROP stress %s nr=%d ntheta=%d nsc=%d threads=%d differs-from-sequential=%d/%d not-bitwise-reproducible=%d worst=%.3e => %s\n", op, g.nr(), g.ntheta(),
+                g.numberSmootherCircles(), threads, bad, reps, nonrepro, worst,
+                (bad == 0 && nonrepro == 0) ? "ok" : "FAIL the multi-threaded operator is not reproducible / differs from its sequential result (data race)");
+}
+
+static int stress(int argc, char** argv) {
+    // stress <nr> <ntheta> <split index or -1> <threads> <reps>
+    int nr = argc > 2 ? atoi(argv[2]) : 200, nth = argc > 3 ? atoi(argv[3]) : 8, sk = argc > 4 ? atoi(argv[4]) : 3, threads = argc > 5 ? atoi(argv[5]) : 2,
+        reps = argc > 6 ? atoi(argv[6]) : 300;
+    Rng rng(5);
+    std::vector<double> radii, angles; double Rmax = 1.3;
+    random_grid(rng, nr, nth, false, radii, angles, Rmax);
+    Problem pb = make_problem(rng, Rmax, 0, -1);
+    std::optional<double> split; if (sk > 0) split = radii[sk];
+    bool ext_ok = (nr % 2 == 1) && (nth % 4 == 0);   // the extrapolated smoothers require ntheta % 4 == 0 (asserted in buildAscMatrices)
+    auto lev = make_level(0, std::make_unique<PolarGrid>(radii, angles, split), pb, true, true, ExtrapolationType::NONE);
+    const PolarGrid& g = lev->grid(); const LevelCache& lc = lev->levelCache();
+    const int n = g.numberOfNodes();
+    stress_one("residualGive", g, threads, reps, [&](int t) { auto o = std::make_shared<ResidualGive>(g, lc, *pb.geom, *pb.coef, false, t);
+        return [o, n](Vec& x, const Vec& f) { Vec r(n); o->computeResidual(r, f, x); x = r; }; });
+    stress_one("residualTake", g, threads, reps, [&](int t) { auto o = std::make_shared<ResidualTake>(g, lc, *pb.geom, *pb.coef, false, t);
+        return [o, n](Vec& x, const Vec& f) { Vec r(n); o->computeResidual(r, f, x); x = r; }; });
+    stress_one("smootherGive", g, threads, reps, [&](int t) { auto o = std::make_shared<SmootherGive>(g, lc, *pb.geom, *pb.coef, false, t);
+        return [o, n](Vec& x, const Vec& f) { Vec tmp(n); o->smoothing(x, f, tmp); }; });
+    stress_one("smootherTake", g, threads, reps, [&](int t) { auto o = std::make_shared<SmootherTake>(g, lc, *pb.geom, *pb.coef, false, t);
+        return [o, n](Vec& x, const Vec& f) { Vec tmp(n); o->smoothing(x, f, tmp); }; });
+    if (ext_ok && g.numberSmootherCircles() >= 3) {   // the extrapolated smoothers also require at least 3 smoother circles
+        auto lev2 = make_level(0, std::make_unique<PolarGrid>(radii, angles, split), pb, true, true, ExtrapolationType::IMPLICIT_EXTRAPOLATION);
+        const PolarGrid& g2 = lev2->grid(); const LevelCache& lc2 = lev2->levelCache();
+        stress_one("extSmootherGive", g2, threads, reps, [&](int t) { auto o = std::make_shared<ExtrapolatedSmootherGive>(g2, lc2, *pb.geom, *pb.coef, false, t);
+            return [o, n](Vec& x, const Vec& f) { Vec tmp(n); o->extrapolatedSmoothing(x, f, tmp); }; });
+        stress_one("extSmootherTake", g2, threads, reps, [&](int t) { auto o = std::make_shared<ExtrapolatedSmootherTake>(g2, lc2, *pb.geom, *pb.coef, false, t);
+            return [o, n](Vec& x, const Vec& f) { Vec tmp(n); o->extrapolatedSmoothing(x, f, tmp); }; });
+    }
+    return 0;
+}
+
 int main(int argc, char** argv) {
+    if (argc > 1 && std::string(argv[1]) == "stress") return stress(argc, argv);
     Rng rng(seed_from_env());
     struct Shape { int nr, nth, split_k; };
     std::vector<Shape> shapes = {{7, 8, -1}, {8, 6, 3}, {9, 8, 5}, {7, 9, 2}};
@@ -99,12 +156,12 @@ int main(int argc, char** argv) {
                         measure(g, "residualTake", "radial", j, "-", 3, tn, [&](std::vector<Vec>& a) { FA::tr(rt, j, a[0], a[1], a[2]); }, rng);
                     }
                     SmootherGive sg(g, lc, *pb.geom, *pb.coef, dirbc, 1); SmootherTake st(g, lc, *pb.geom, *pb.coef, dirbc, 1);
-                    smoother_tasks("smootherGive", sg, g, rng);
-                    smoother_tasks("smootherTake", st, g, rng);
+                    smoother_tasks("smootherGive", sg, g, rng, true);
+                    smoother_tasks("smootherTake", st, g, rng, false);
                 } else {
                     ExtrapolatedSmootherGive eg(g, lc, *pb.geom, *pb.coef, dirbc, 1); ExtrapolatedSmootherTake et(g, lc, *pb.geom, *pb.coef, dirbc, 1);
-                    smoother_tasks("extSmootherGive", eg, g, rng);
-                    smoother_tasks("extSmootherTake", et, g, rng);
+                    smoother_tasks("extSmootherGive", eg, g, rng, true);
+                    smoother_tasks("extSmootherTake", et, g, rng, false);
                 }
             } catch (const std::exception& e) {
                 std::string m = e.what(); std::replace(m.begin(), m.end(), '\n', ' ');
